@@ -104,7 +104,7 @@ class C17Noise(Machine):
                    "Nyquist bin", "amplitude functions are vectorised or raise TypeError on arrays"]
     required_counters = ("probe.abs_time_reobserved", "probe.rebuild_compared", "fault.bad_band",
                          "fault.no_rms", "probe.file_basis_compared", "probe.dft_checked",
-                         "probe.unit_rms_checked", "draws.injected")
+                         "probe.unit_rms_checked", "draws.injected", "probe.antenna_windows")
 
     # ------------------------------------------------------------------
     def draw_config(self, rng):
@@ -147,7 +147,8 @@ class C17Noise(Machine):
             kinds = [("new", 1.0), ("bad_band", 0.1), ("no_rms", 0.1)]
         else:
             kinds = [("new", 0.4), ("read", 2.0), ("with_times", 2.0), ("shift", 1.0), ("copy", 0.7),
-                     ("rebuild", 1.0), ("independent", 0.5), ("file_basis", 0.5),
+                     ("rebuild", 1.0), ("rebase_evaluated", 0.7), ("independent", 0.5), ("file_basis", 0.5),
+                     ("antenna_windows", 0.5),
                      ("bad_band", 0.2), ("no_rms", 0.2)]
         k = rng.weighted(kinds)
         nyq = 0.5 / cfg["dt"]
@@ -181,6 +182,11 @@ class C17Noise(Machine):
             return {"op": "shift", "v": v, "k": rng.pick([1, -1, 5, -17, 100])}
         if k in ("read", "copy", "rebuild"):
             return {"op": k, "v": v}
+        if k == "rebase_evaluated":
+            return {"op": k, "k0": rng.randint(-n, n), "m": rng.pick([n, max(2, n // 2)])}
+        if k == "antenna_windows":
+            return {"op": k, "unique": rng.pick([1, 2, 3]), "k0": rng.randint(-5, 20),
+                    "factor": rng.pick([2, 4, 6])}
         if k == "independent":
             op = {"op": "independent"}
             inj = self._inject(rng)
@@ -364,6 +370,54 @@ class C17Noise(Machine):
         n = self._check_view(nv, "rebuilt from basis")
         self._push(nv)
         return ["rebuild", n]
+
+    def _op_rebase_evaluated(self, op):
+        """An object that has already been evaluated receives the published basis
+        and is then re-gridded: the new waveform must follow the installed basis."""
+        if self.basis is None:
+            raise Skip("no basis")
+        spec = dict(self.spec)
+        spec["amp"] = 1.0
+        times = self._grid()
+        st, obj = self.sut(self._construct, spec, times, where="ThermalNoise() for rebase")
+        if len(obj.freqs) != len(self.basis.freqs):
+            raise Violation("C17:rebuild-freqs", "same grid and band give different frequencies")
+        st, _ = self.sut(lambda: (np.array(obj.values), np.array(obj.with_times(times + self.cfg["dt"]).values)),
+                         where="evaluate before rebase")
+        obj.amps = self.basis.amps.copy()
+        obj.phases = self.basis.phases.copy()
+        window = self._grid(op["k0"], op["m"])
+        st, w = self.sut(obj.with_times, window, where="with_times after rebase")
+        self.count("probe.rebuild_compared")
+        self.nontrivial = True
+        nv = View(w, 0.0)
+        n = self._check_view(nv, "re-gridded after installing the basis on an evaluated object")
+        return ["rebase_evaluated", n]
+
+    def _op_antenna_windows(self, op):
+        """The antenna's noise is one realisation in absolute time, whatever the
+        lengths of the windows it is asked for."""
+        P = self.pyrex
+        dt = self.cfg["dt"]
+        n = self.cfg["n"]
+        ant = P.Antenna(position=(0, 0, -100), noisy=True, freq_range=(0.1 / dt, 0.35 / dt),
+                        noise_rms=1.0, unique_noise_waveforms=op["unique"])
+        w1 = self._grid(op["k0"], n)
+        long_n = (op["unique"] * op["factor"] + 1) * n
+        w2 = self._grid(op["k0"] - 3, long_n)
+        st, res = self.sut(lambda: (np.array(ant.make_noise(w1).values, dtype=float),
+                                    np.array(ant.make_noise(w2).values, dtype=float),
+                                    np.array(ant.make_noise(w1).values, dtype=float)),
+                           where="Antenna.make_noise")
+        v1, v2, v3 = res
+        self.count("probe.antenna_windows")
+        self.nontrivial = True
+        if np.max(np.abs(v2[3:3 + n] - v1)) > 1e-9 or np.max(np.abs(v3 - v1)) > 1e-9:
+            raise Violation("C17:antenna-noise-not-absolute-time",
+                            "antenna noise over a long window (%d samples) differs from the noise seen "
+                            "earlier at the shared sample times (max |diff| %.3g)"
+                            % (long_n, float(max(np.max(np.abs(v2[3:3 + n] - v1)), np.max(np.abs(v3 - v1))))))
+        return ["antenna_windows", long_n]
 
     def _op_independent(self, op):
         if self.basis is None:
